@@ -82,10 +82,10 @@ Proof.
   intros H1 H2 H3 H4 X w (Hg & Hj & Hl & Ht). split; [apply H1; exact Hg|]. split; [eapply Jc_cext; [apply H3|exact Hj]|].
   split; [eapply Tlate_ext; [apply H4|exact Hl]|]. eapply T_frame; [apply H2|apply H4|exact Ht].
 Qed.
-Lemma GGT_same X w w' : same w w' -> GGT X w -> GGT X w'.
+Lemma GGT_same {b} X w w' : sameb b w w' -> GGT X w -> GGT X w'.
 Proof.
-  intros Hs (Hg & Hj & Hl & Ht). split; [eapply GGK_same; eauto|]. split; [eapply Jc_cext; [apply same_cext; exact Hs|exact Hj]|].
-  split; [eapply Tlate_ext; [apply same_ext; exact Hs|exact Hl]|]. eapply T_frame; [apply same_kx; exact Hs|apply same_ext; exact Hs|exact Ht].
+  intros Hs (Hg & Hj & Hl & Ht). split; [eapply GGK_same; eauto|]. split; [eapply Jc_cext; [eapply same_cext; exact Hs|exact Hj]|].
+  split; [eapply Tlate_ext; [eapply same_ext; exact Hs|exact Hl]|]. eapply T_frame; [eapply same_kx; exact Hs|eapply same_ext; exact Hs|exact Ht].
 Qed.
 Lemma kkT_neutral f : neutral f -> kkT f.
 Proof. intros H X w Hg. eapply GGT_same; [apply H|exact Hg]. Qed.
@@ -131,7 +131,7 @@ Proof.
   destruct (N.eqb_spec (t_collect (cfg w)) 0) as [Hz|Hnz].
   - (* zero timeout *)
     rewrite (queue_send_zero e d w Hz).
-    eapply T_frame; [apply same_kx, n_send_sd|apply same_ext, n_send_sd|].
+    eapply T_frame; [eapply same_kx, n_send_sd|eapply same_ext, n_send_sd|].
     assert (Hnone : forall d', open_collector w d' = None).
     { intros d'. unfold open_collector. rewrite (K7 Hz). destruct (aget dest_eqb d' (queues w)); reflexivity. }
     assert (Hpt : forall d', ptimes d' (glog w) = []).
@@ -267,7 +267,7 @@ Proof.
   unfold open_coll in Hopen. change (collectors w) with (collectors w1) in Hopen.
   unfold collector_timeout. destruct (aget N.eqb c (collectors w1)) as [co|] eqn:Eco; [|discriminate].
   apply negb_true_iff in Hopen.
-  eapply T_frame; [apply same_kx, n_send_sd|apply same_ext, n_send_sd|].
+  eapply T_frame; [eapply same_kx, n_send_sd|eapply same_ext, n_send_sd|].
   destruct Hk1 as [K1 K2 K3 K4 K5 K6 K7 K8].
   pose proof (K2 c co Eco Hopen) as Hreg. set (d0 := co_dest co) in *.
   assert (Ho0 : open_collector w d0 = Some (c, co)).
